@@ -201,6 +201,9 @@ CONTROLS = [
         '                let range = Range::new(locate.offset, locate.offset + locate.len);\n                ret.push(locate.str(&s), Some((path.as_ref(), range)));\n            }\n            NodeEvent::Enter(RefNode::IncludeCompilerDirective(x)) if !ignore_include => {',
         '                let mut kept = locate.str(&s);\n                if strip_comments {\n                    if let Some(pos) = kept.find("//") {\n                        kept = &kept[..pos];\n                    }\n                }\n                let range = Range::new(locate.offset, locate.offset + kept.len());\n                ret.push(kept, Some((path.as_ref(), range)));\n            }\n            NodeEvent::Enter(RefNode::IncludeCompilerDirective(x)) if !ignore_include => {', 1)]),
     ('w3-origin-of-previous-byte', 'W3', 'syn', 'error-mapping', [(API, 'if let Some(origin) = text.origin(pos) {', 'if let Some(origin) = text.origin(pos.saturating_sub(1)) {', 1)]),
+    ('x7-skip-never-cleared', 'X7', 'syn', 'skip-bookkeeping', [(PPF,
+        '            NodeEvent::Leave(x) => {\n                if skip_nodes.contains(&x) {\n                    skip = false;\n                }\n            }',
+        '            NodeEvent::Leave(_) => {}', 1)]),
     ('s1-version-stack-not-reset', 'S1', 'mir', 'not-reset:CURRENT_VERSION', [(PARSER + 'lib.rs', '    clear_directive();\n    clear_version();\n}', '    clear_directive();\n}', 1)]),
     ('s2-grammar-function-exported', 'S2', 'mir', 'source_text', [(PARSER + 'source_text/system_verilog_source_text.rs', 'pub(crate) fn source_text(s: Span)', 'pub fn source_text(s: Span)', 1)]),
     ('s3-scope-leak-on-error-path', 'S3', 'mir', 'text_macro_usage:unbalanced', [(CD,
